@@ -9,6 +9,8 @@ import (
 	"encoding/json"
 	"fmt"
 	"os"
+	"strconv"
+	"time"
 )
 
 func l1dec(s string) string {
@@ -73,14 +75,37 @@ func main() {
 				fmt.Fprintln(os.Stderr, "bad scenario:", err)
 				os.Exit(2)
 			}
-			out := runScenarioRepeated(&sc)
+			out := runWithWatchdog(&sc)
 			b, _ := json.Marshal(out)
 			wr.Write(b)
 			wr.WriteByte('\n')
 			wr.Flush()
+			if out.Hang != "" {
+				// the goroutine cannot be stopped: leave, the driver restarts after this scenario
+				os.Exit(3)
+			}
 		}
 	default:
 		fmt.Fprintln(os.Stderr, "unknown mode")
 		os.Exit(2)
+	}
+}
+
+// runWithWatchdog runs one scenario; a scenario that does not finish in time is reported
+// as a hang (the model terminates by construction, so this is always a disagreement).
+func runWithWatchdog(sc *Scenario) *ScenarioResult {
+	limit := 30 * time.Second
+	if v := os.Getenv("VERIF_SCEN_TIMEOUT"); v != "" {
+		if n, err := strconv.Atoi(v); err == nil && n > 0 {
+			limit = time.Duration(n) * time.Second
+		}
+	}
+	done := make(chan *ScenarioResult, 1)
+	go func() { done <- runScenarioRepeated(sc) }()
+	select {
+	case r := <-done:
+		return r
+	case <-time.After(limit):
+		return &ScenarioResult{Setup: "nil", Hang: fmt.Sprintf("scenario did not terminate within %v", limit)}
 	}
 }
